@@ -408,6 +408,19 @@ def w_history(ctx, rng, i):
             shape.append("creep")
             accepted += 1
             continue
+        if r < 0.44 and r >= 0.4 and not warp:
+            # a sibling made from the alignment's own class and other parameters (from_vector) joins the live objects: whatever
+            # happens to it later is its own business
+            try:
+                sib = who.from_vector(np.array(who.as_vector(), dtype=float) * 1.05 + 0.01)
+                live.append(sib)
+                UNRETARGETED_INVERSES.add(id(sib))          # (the map of the given parameters, not a fit, until it is retargeted)
+                shape.append("sibling")
+                last_target.clear()
+                audit_live(ctx, live, sib)
+            except NotImplementedError:
+                pass
+            continue
         if r < 0.4 and not warp:
             # parameter update in between (the alignment re-syncs its target), then retarget again
             held = last_target.get(id(who))
